@@ -27,7 +27,7 @@ from .c11 import sql_of
 FIELDS = ("id", "vector", "costs", "costs_signed", "population_id", "custom", "features")
 
 
-def r1_fields(ctx, repo):
+def r1_fields(ctx, repo, rid="R1", fields=None, helper_rule=True):
     cls = repo.cls("Individual", "individual")
     mod = cls.module
     td, fd = cls.methods.get("to_dict"), cls.methods.get("from_dict")
@@ -57,7 +57,7 @@ def r1_fields(ctx, repo):
             if isinstance(k, ast.Constant):
                 writer[k.value] = v
     elif outvar is None or not rets or access_path(rets[-1].value) != outvar:
-        ctx.inconclusive("R1", "Individual.to_dict", where(mod, td), "dictionary construction not recognised")
+        ctx.inconclusive(rid, "Individual.to_dict", where(mod, td), "dictionary construction not recognised")
         return
 
     def data_paths(e):
@@ -91,7 +91,7 @@ def r1_fields(ctx, repo):
             if ivar and t.startswith(ivar + "."):
                 reader[t[len(ivar) + 1:]] = (s.value.slice.value, s)
     table = {}
-    for f in FIELDS:
+    for f in (fields or FIELDS):
         C = "Individual.to_dict/from_dict[%s]" % f
         w = writer.get(f)
         r = reader.get(f)
@@ -107,7 +107,7 @@ def r1_fields(ctx, repo):
             want = selfn + "." + f
             if problems is None:
                 table[f] = {"written_from": text(w)}
-                ctx.inconclusive("R1", C, where(mod, td), "the value written under key '%s' (%s) is not resolved" % (f, text(w)))
+                ctx.inconclusive(rid, C, where(mod, td), "the value written under key '%s' (%s) is not resolved" % (f, text(w)))
                 continue
             base_own = {p.split("[")[0] for p in own}
             # self.f[k] with k ranging over self.f itself is the whole mapping read entry by entry, not a part of it
@@ -136,12 +136,14 @@ def r1_fields(ctx, repo):
             problems.append("from_dict restores attribute '%s' from key '%s'" % (f, r[0]))
         table[f] = {"written_from": text(w) if w is not None else None, "read_from_key": r[0] if r else None}
         if problems is None:
-            ctx.inconclusive("R1", C, where(mod, td), "the value written under key '%s' (%s) is not resolved" % (f, text(w)))
+            ctx.inconclusive(rid, C, where(mod, td), "the value written under key '%s' (%s) is not resolved" % (f, text(w)))
         elif problems:
-            ctx.violated("R1", C, where(mod, (r[1] if r else td)), "; ".join(problems))
+            ctx.violated(rid, C, where(mod, (r[1] if r else td)), "; ".join(problems))
         else:
-            ctx.holds("R1", C, where(mod, td), "written from self.%s under key '%s', restored to .%s" % (f, f, f))
+            ctx.holds(rid, C, where(mod, td), "written from self.%s under key '%s', restored to .%s" % (f, f, f))
     ctx.extra["field_table"] = table
+    if not helper_rule:
+        return
     # nested individuals replaced by ids before json.dumps
     helper = cls.methods.get("_replace_individual_id")
     ok = False
@@ -152,7 +154,7 @@ def r1_fields(ctx, repo):
                 if rr and text(rr[0].value).endswith(".id"):
                     ok = True
     uses = sum(1 for c in calls_in(td) if (access_path(c.func) or "").endswith("._replace_individual_id"))
-    ctx.check3(True if (ok and uses >= 3) else (False if (ok and uses < 3) else None), "R1", "Individual._replace_individual_id", where(mod, helper or td),
+    ctx.check3(True if (ok and uses >= 3) else (False if (ok and uses < 3) else None), rid, "Individual._replace_individual_id", where(mod, helper or td),
                "nested Individual objects (parents, children, feature values) are replaced by their ids before encoding (%d uses)" % uses,
                "only %d of the three places (parents, children, feature values) replace nested individuals by their ids: json.dumps fails on the others" % uses,
                "id replacement helper not recognised")
